@@ -35,6 +35,9 @@ type Cond struct {
 	HoldsSucc int  // successor index (0/1) on which the relation holds
 	If        *ssa.If
 	Raw       string // the un-canonicalised rendering
+	// Alts: for an integer gt, the algebraically equivalent spellings L' > R' obtained by moving
+	// terms of the linear form across the comparison (x > len-16 ⇔ 16 > len-x ⇔ x+16 > len)
+	Alts [][2]string
 }
 
 func (c Cond) String() string {
@@ -57,6 +60,7 @@ type FuncAn struct {
 	R     *Renderer
 	Conds []Cond
 	byIf  map[*ssa.If]int
+	bc    *boundsCtx // lazily built, for linearAlts
 }
 
 // NewFuncAnCtx renders the parameters of fn as the given caller-side terms.
@@ -83,6 +87,9 @@ func newFuncAn(w *World, fn *ssa.Function, subst map[*ssa.Parameter]string) *Fun
 		if iff, ok := b.Instrs[len(b.Instrs)-1].(*ssa.If); ok {
 			c := fa.canon(shortCircuitCond(iff))
 			c.If = iff
+			if c.Kind == "gt" {
+				c.Alts = fa.linearAlts(shortCircuitCond(iff))
+			}
 			fa.byIf[iff] = len(fa.Conds)
 			fa.Conds = append(fa.Conds, c)
 		}
@@ -219,6 +226,21 @@ func matchOne(c Cond, x, y string, p GuardPat) (int, bool) {
 				succ = c.HoldsSucc
 			}
 			return succ, true
+		}
+		for _, alt := range c.Alts {
+			if fullMatch(x, alt[0]) && fullMatch(y, alt[1]) {
+				succ := c.HoldsSucc
+				if !p.PassWhen {
+					succ = 1 - succ
+				}
+				return succ, true
+			} else if fullMatch(y, alt[0]) && fullMatch(x, alt[1]) {
+				succ := 1 - c.HoldsSucc
+				if !p.PassWhen {
+					succ = c.HoldsSucc
+				}
+				return succ, true
+			}
 		}
 	}
 	return 0, false
@@ -1072,4 +1094,134 @@ func shortCircuitCond(iff *ssa.If) ssa.Value {
 func (fa *FuncAn) TrueImplies(p GuardPat) bool {
 	whenTrue, _ := fa.helperImplies([]rawPat{{substParams(fa.Fn, p.X), substParams(fa.Fn, p.Y), p, true}}, 0)
 	return whenTrue
+}
+
+// linearAlts: for an integer comparison, the spellings L' > R' (relative to the canonical gt of the
+// condition: same Holds edge) that move terms of the linear form L − R across the comparison.
+// Only forms whose sides are sums/differences of at most two terms are produced.
+func (fa *FuncAn) linearAlts(cond ssa.Value) [][2]string {
+	v := cond
+	for {
+		u, ok := v.(*ssa.UnOp)
+		if !ok || u.Op != token.NOT {
+			break
+		}
+		v = u.X
+	}
+	bo, ok := v.(*ssa.BinOp)
+	if !ok {
+		return nil
+	}
+	if _, _, isInt := intInfo(bo.X.Type(), 64); !isInt {
+		return nil
+	}
+	var l, r ssa.Value
+	switch bo.Op {
+	case token.GTR, token.LEQ: // canonical gt: X > Y
+		l, r = bo.X, bo.Y
+	case token.LSS, token.GEQ: // canonical gt: Y > X
+		l, r = bo.Y, bo.X
+	default:
+		return nil
+	}
+	if fa.bc == nil {
+		fa.bc = newBoundsCtx(fa.W, fa.Fn)
+		fa.bc.r = fa.R
+	}
+	bc := fa.bc
+	d := bc.lin(l).add(bc.lin(r), -1) // d > 0
+	type term struct {
+		s   string
+		pos bool
+	}
+	var terms []term
+	for a, cf := range d.t {
+		if cf != 1 && cf != -1 {
+			return nil
+		}
+		terms = append(terms, term{bc.atomName(a), cf == 1})
+	}
+	if d.k != 0 {
+		k := d.k
+		if k < 0 {
+			terms = append(terms, term{fmt.Sprint(-k), false})
+		} else {
+			terms = append(terms, term{fmt.Sprint(k), true})
+		}
+	}
+	if len(terms) < 2 || len(terms) > 4 {
+		return nil
+	}
+	sort.Slice(terms, func(i, j int) bool { return terms[i].s < terms[j].s })
+	side := func(ts []term) (string, bool) {
+		var pos, neg []string
+		for _, t := range ts {
+			if t.pos {
+				pos = append(pos, t.s)
+			} else {
+				neg = append(neg, t.s)
+			}
+		}
+		switch {
+		case len(ts) == 0:
+			return "0", true
+		case len(pos) == 1 && len(neg) == 0:
+			return pos[0], true
+		case len(pos) == 2 && len(neg) == 0:
+			return "(" + pos[0] + " + " + pos[1] + ")", true
+		case len(pos) == 1 && len(neg) == 1:
+			return "(" + pos[0] + " - " + neg[0] + ")", true
+		}
+		return "", false
+	}
+	var out [][2]string
+	n := len(terms)
+	for mask := 0; mask < 1<<uint(n); mask++ {
+		var left, right []term
+		for i, t := range terms {
+			if mask&(1<<uint(i)) != 0 {
+				left = append(left, t)
+			} else {
+				right = append(right, term{t.s, !t.pos}) // moved across: sign flips
+			}
+		}
+		ls, ok1 := side(left)
+		rs, ok2 := side(right)
+		if ok1 && ok2 {
+			out = append(out, [2]string{ls, rs})
+		}
+	}
+	return out
+}
+
+// withNewHelpers: the function and, with their parameters rendered as its arguments, the helpers
+// introduced later that it calls (transitively, depth 2): the places where a construct that used to
+// be in the function's own body may live after an extract-method refactoring.
+func (fa *FuncAn) withNewHelpers() []*FuncAn {
+	out := []*FuncAn{fa}
+	seen := map[*ssa.Function]bool{fa.Fn: true}
+	var walk func(a *FuncAn, depth int)
+	walk = func(a *FuncAn, depth int) {
+		for _, b := range a.Fn.Blocks {
+			for _, in := range b.Instrs {
+				call, ok := in.(*ssa.Call)
+				if !ok {
+					continue
+				}
+				g := call.Call.StaticCallee()
+				if g == nil || !newHelper(g) || seen[g] {
+					continue
+				}
+				seen[g] = true
+				sub := NewFuncAnCtx(a.W, g, a.CallArgs(call))
+				sub.R.inlineDepth = a.R.inlineDepth + 1
+				out = append(out, sub)
+				if depth < 2 {
+					walk(sub, depth+1)
+				}
+			}
+		}
+	}
+	walk(fa, 0)
+	return out
 }
